@@ -44,6 +44,7 @@ MIN_REACH = {
     "crops_whose_path_contains_pattern_characters": {"quick": 20, "thorough": 200},
     "reloads_through_load_crops": {"quick": 10, "thorough": 100},
     "resows_refused_for_their_shape": {"quick": 50, "thorough": 600},
+    "pooled_grows_around_a_resow_that_replaced_the_function": {"quick": 12, "thorough": 200},
 }
 TIME_BUDGET = {"quick": 300, "thorough": 3000}
 
@@ -231,7 +232,10 @@ def run_case(ctx, case):
                     nontrivial=B >= 2, info={"queries": [q[0], q[1], list(q[2]), q[3]], "finished": sorted(finished)})
 
     judge("sow", crop)
-    for op in case["hist"]:
+    hist = list(case["hist"])
+    if case["hseed"] % 6 == 1 and B >= 2:
+        hist.insert(case["hseed"] % (len(hist) + 1), "resow_fn_pooled")
+    for op in hist:
         if nviol:
             break
         ev0 = len(rec.events)
@@ -372,6 +376,43 @@ def run_case(ctx, case):
                     if sorted(cropkit.batch_files(tmp, name)) != sorted(allb):
                         ctx.violation(dict(case, at=list(done_hist)), "a refused re-sow changed the batch files", dict(sig, oracle="refused-untouched"))
                         nviol += 1
+                elif op == "resow_fn_pooled":
+                    # the function is REPLACED by a re-sow of the same shape (results remain) between two grows that use a
+                    # pool of workers inside the batch, i.e. while the pool's workers are still alive: what is grown after
+                    # the re-sow is grown with the function that was sown last
+                    from joblib.externals.loky import get_reusable_executor
+                    try:
+                        i = rng.randint(1, B)
+                        xyzpy.grow(i, crop=crop, num_workers=1, verbosity=0)
+                        j = rng.choice(sorted(allb - {i}))
+                        ctl2 = os.path.join(tmp, "ctl2.json")
+                        probe.write_ctl(ctl2)
+                        fn2 = probe.Probe(w["kind"], logfile=logfile, ctl=ctl2, name="probe")
+                        crop = xyzpy.Crop(fn=fn2, name=name, parent_dir=tmp, **ctor)
+                        cropkit.sow(crop, dict(w))
+                        files2 = cropkit.batch_files(tmp, name)
+                        batch_settings = {i_: [probe.canon(kw) for kw in cropkit.read_pickle(p)] for i_, p in files2.items()}
+                        pj = os.path.join(resdir, "xyz-result-%d.jbdmp" % j)
+                        if os.path.exists(pj):
+                            os.remove(pj)
+                            finished.discard(j)
+                        probe.write_ctl(ctl2, fail=[rng.choice(batch_settings[j])])
+                        try:
+                            xyzpy.grow(j, crop=crop, num_workers=1, verbosity=0)
+                            ctx.violation(dict(case, at=list(done_hist)), "after a re-sow that replaced the function, a pooled grow of batch %d returned although "
+                                          "the function sown last raises on one of its settings" % j, dict(sig, oracle="grown-with-the-sown-function", op=op))
+                            nviol += 1
+                        except Exception:
+                            pass
+                        # ... and repaired by another re-sow, the batch grows
+                        crop = xyzpy.Crop(fn=fn, name=name, parent_dir=tmp, **ctor)
+                        cropkit.sow(crop, dict(w))
+                        files2 = cropkit.batch_files(tmp, name)
+                        batch_settings = {i_: [probe.canon(kw) for kw in cropkit.read_pickle(p)] for i_, p in files2.items()}
+                        xyzpy.grow(j, crop=crop, num_workers=1, verbosity=0)
+                        ctx.count("pooled_grows_around_a_resow_that_replaced_the_function")
+                    finally:
+                        get_reusable_executor().shutdown(wait=True)
                 elif op == "resow":
                     w2 = dict(w)
                     crop2 = crop if rng.random() < 0.5 else xyzpy.Crop(fn=fn, name=name, parent_dir=tmp, **ctor)
@@ -410,7 +451,7 @@ def run_case(ctx, case):
                 finished.add(i)
         # a grow writes only its own result file(s)
         after = listing()
-        if op in ("grow", "grow_fn", "grow_subset", "grow_missing", "grow_fail", "grow_unpicklable"):
+        if op in ("grow", "grow_fn", "grow_subset", "grow_missing", "grow_fail", "grow_unpicklable", "resow_fn_pooled"):
             returned = {"xyz-result-%d.jbdmp" % i for (i, o, _) in rec.events[ev0:] if o == "returned"}
             new = {f for f in set(after) - set(before) if re.fullmatch(r"xyz-result-\d+\.jbdmp", f)}
             if not new <= returned or set(before) - set(after):
